@@ -206,7 +206,45 @@ func (b *builder) unit(depth int) gram.Ref {
 	if depth <= 0 {
 		return b.tok()
 	}
-	switch r.Intn(12) {
+	switch r.Intn(14) {
+	case 12, 13:
+		// nullable chain: nullability has to travel several steps, against
+		// declaration order, through rules that already own terminals:
+		//   c0 = T U | c1 ;  c1 = T V | c2 ;  c2 = T? (or @empty)
+		// (the rules are declared first-to-last, the nullable one last)
+		n := r.Range(2, 4)
+		common := b.tok()
+		idx := make([]int, n)
+		for i := range idx {
+			idx[i] = b.reserve()
+		}
+		for i := 0; i < n; i++ {
+			me := idx[i]
+			if i == n-1 {
+				switch r.Intn(3) {
+				case 0:
+					b.g.Rules[me].Prods = []gram.Prod{P(TS(common, gram.Opt))}
+				case 1:
+					b.g.Rules[me].Prods = []gram.Prod{P(T(common)), P()}
+				default:
+					b.g.Rules[me].Prods = []gram.Prod{P(TS(common, gram.Star))}
+				}
+				continue
+			}
+			next := gram.Ref{Kind: gram.KRule, Idx: idx[i+1]}
+			b.g.Rules[me].Prods = []gram.Prod{P(T(common), T(b.tok())), P(T(next))}
+			if r.Chance(1, 2) {
+				b.g.Rules[me].Prods[0], b.g.Rules[me].Prods[1] = b.g.Rules[me].Prods[1], b.g.Rules[me].Prods[0]
+			}
+		}
+		// put it where its nullability decides a reduce lookahead: after a
+		// rule (which must be reduced on FIRST(chain post)) and before a token
+		head := gram.Ref{Kind: gram.KRule, Idx: idx[0]}
+		pre := b.rule(P(T(b.tok())))
+		if r.Chance(1, 3) {
+			return b.rule(P(T(pre), T(head)), P(T(pre), T(head), T(b.tok())))
+		}
+		return b.rule(P(T(b.tok()), T(pre), T(head), T(b.tok())))
 	case 0: // optional thing as a rule: o = X | ε
 		return b.rule(P(T(b.unit(depth-1))), P())
 	case 1: // left-recursive list
